@@ -42,7 +42,65 @@ pub mod sym {
         pub trait Sym: Sized {
             fn sym() -> Self;
         }
+        thread_local! {
+            /// search mode: values are generated on demand (boundary-biased pseudo-random) and recorded
+            pub static SEARCH: RefCell<Option<u64>> = RefCell::new(None);
+            pub static DRAWN: RefCell<Vec<Vec<u8>>> = RefCell::new(Vec::new());
+            static HIST: RefCell<Vec<u64>> = RefCell::new(Vec::new());
+        }
+        pub struct AssumeViolated;
+        fn rnd() -> u64 {
+            SEARCH.with(|s| {
+                let mut g = s.borrow_mut();
+                let mut x = g.unwrap();
+                x ^= x << 13;
+                x ^= x >> 7;
+                x ^= x << 17;
+                *g = Some(x);
+                x
+            })
+        }
+        fn gen(n: usize) -> Vec<u8> {
+            let r = rnd();
+            let v: u64 = if n == 1 {
+                match r % 4 { 0 => 0, 1 => 1, _ => (r >> 8) & 0xff }
+            } else {
+                let hist: Vec<u64> = HIST.with(|h| h.borrow().clone());
+                let sum: u64 = hist.iter().fold(0u64, |a, b| a.wrapping_add(*b));
+                let base = std::mem::size_of::<super::super::E>() as u64 + super::super::KEY_HEAP as u64;
+                let delta = (r >> 16) % 4;
+                match r % 12 {
+                    0 => 0,
+                    1 => (r >> 8) % 8,
+                    2 | 3 => (r >> 8) % 300,
+                    4 => (1u64 << 40) - 1 - (r >> 8) % 3,
+                    5 => u64::MAX - (r >> 8) % 3,
+                    6 => hist.last().copied().unwrap_or(0).wrapping_add(delta),
+                    7 => hist.last().copied().unwrap_or(0).wrapping_sub(delta),
+                    // sums of earlier values plus multiples of the constant entry overhead: exact fits
+                    8 => sum.wrapping_add(base * ((r >> 24) % 5)).wrapping_add(delta),
+                    9 => sum.wrapping_add(base * ((r >> 24) % 5)).wrapping_sub(delta),
+                    10 => hist.get(((r >> 32) as usize) % hist.len().max(1)).copied().unwrap_or(7),
+                    _ => (r >> 8) % (1 << 20),
+                }
+            };
+            if n == 8 {
+                HIST.with(|h| h.borrow_mut().push(v));
+            }
+            let b = v.to_le_bytes();
+            b[..n.min(8)].to_vec()
+        }
+        pub fn start_search(seed: u64) {
+            SEARCH.with(|s| *s.borrow_mut() = Some(seed | 1));
+            DRAWN.with(|d| d.borrow_mut().clear());
+            HIST.with(|h| h.borrow_mut().clear());
+        }
         fn pop(n: usize) -> Vec<u8> {
+            if SEARCH.with(|s| s.borrow().is_some()) {
+                let b = gen(n);
+                DRAWN.with(|d| d.borrow_mut().push(b.clone()));
+                return b;
+            }
             VALS.with(|v| {
                 let b = v.borrow_mut().pop_front().unwrap_or_else(|| {
                     eprintln!("REPLAY-MISMATCH: ran out of recorded values");
@@ -90,12 +148,21 @@ pub mod sym {
         }
         pub fn assume(c: bool) {
             if !c {
+                if SEARCH.with(|s| s.borrow().is_some()) {
+                    std::panic::panic_any(AssumeViolated);
+                }
                 eprintln!("REPLAY-MISMATCH: assumption violated (values do not belong to this harness)");
                 std::process::exit(3)
             }
         }
         pub fn check(c: bool, msg: &'static str) {
             if !c {
+                if SEARCH.with(|s| s.borrow().is_some()) {
+                    // print the witness found by the search so that it can be stored and replayed
+                    let vals = DRAWN.with(|d| d.borrow().clone());
+                    let txt: Vec<String> = vals.iter().map(|v| format!("[{}]", v.iter().map(|b| b.to_string()).collect::<Vec<_>>().join(","))).collect();
+                    eprintln!("SEARCH-WITNESS [{}]", txt.join(","));
+                }
                 eprintln!("VASSERT-FAILED {}", msg);
                 std::process::exit(101)
             }
@@ -924,6 +991,44 @@ pub mod iters;
 pub mod capacity;
 pub mod memsize;
 pub mod hashers;
+
+/// Native witness search (used only when CBMC has found a counterexample but the trace-producing
+/// run does not fit into memory): boundary-biased pseudo-random inputs are fed to the same harness
+/// until one of its assertions fails; iterations whose inputs violate an assumption are skipped.
+#[cfg(not(kani))]
+pub fn search(harness: &str, iters: u64, seed: u64) -> bool {
+    std::panic::set_hook(Box::new(|_| {}));
+    let mut i = 0;
+    while i < iters {
+        sym::start_search(seed.wrapping_mul(0x9E37_79B9_7F4A_7C15).wrapping_add(i.wrapping_mul(0xD1B5_4A32_D192_ED03)));
+        // ghost state is per iteration
+        unsafe {
+            DROPS = [0; 48];
+            HASHES = 0;
+        }
+        ops::reset_ghost();
+        let h = harness.to_string();
+        let r = std::panic::catch_unwind(move || {
+            ops::dispatch(&h) || iters::dispatch(&h) || capacity::dispatch(&h) || memsize::dispatch(&h) || hashers::dispatch(&h)
+        });
+        match r {
+            Ok(false) => return false,
+            Ok(true) => {}
+            Err(e) => {
+                if e.downcast_ref::<sym::AssumeViolated>().is_none() {
+                    // a genuine panic inside the crate: report with the inputs drawn so far
+                    let vals = sym::DRAWN.with(|d| d.borrow().clone());
+                    let txt: Vec<String> = vals.iter().map(|v| format!("[{}]", v.iter().map(|b| b.to_string()).collect::<Vec<_>>().join(","))).collect();
+                    eprintln!("SEARCH-WITNESS [{}]", txt.join(","));
+                    eprintln!("SEARCH-PANIC the harness panicked (not an assumption)");
+                    std::process::exit(102);
+                }
+            }
+        }
+        i += 1;
+    }
+    true
+}
 
 #[cfg(not(kani))]
 pub fn replay(harness: &str, vals: Vec<Vec<u8>>) -> bool {
